@@ -1,5 +1,7 @@
 import Httpcache.Proofs.Invalidate
 import Httpcache.Proofs.UrlKey
+import Httpcache.Proofs.NoOrphan
+import Httpcache.Properties.C10
 /-
 C07 — Successful unsafe requests invalidate what is stored for their target.
 
@@ -141,5 +143,57 @@ example : (resolveLoc { method := sGET, scheme := (str% "http"), host := (str% "
             { scheme := [], host := [], kScheme := [], kHost := [], kPath := (str% "../x/./b"), kQuery := [], kOpaq := [] }).key = (str% "http://h.example/x/b") := by
   decide
 
+
+/-- The two halves put together, for every sequential fault-free history. (1) After the invalidation of a
+    resource in ANY reachable state (`ReachableRes`, C19) its index and every response stored for it — every
+    variant — are gone from the store. (2) A store that no longer has the index answers the next look-up with
+    "not there", and then, whatever else the store and the origin answer: the exchange is the synthesised 504
+    (only-if-cached) or its result is the outcome of an origin call made with the client's own header fields
+    in THAT exchange. Nothing stored earlier is returned again without the origin being asked. -/
+theorem invalidated_resource_is_refetched (cfg : Cfg) (key : Str) (s : ResState) (hs : ReachableRes cfg key s)
+    (rq : Req) (respH : Header) (res0 : Result) (trI : List Step) (rI : Result)
+    (hI : Run (invalidateCache cfg rq respH s.index key (.ret res0)) trI rI) :
+    ((applyTrace key s trI).index = [] ∧ (applyTrace key s trI).entries = []) ∧
+    ∀ (t0 : Int) (req : Req) (tr' : List Step) (r : Result),
+      isRequestMethodUnderstood req = true →
+      Run (roundTrip cfg t0 req) (Step.getRefs (makeURLKey req) none :: tr') r →
+      r = .resp make504 ∨ ∃ pre ans post, Step.getRefs (makeURLKey req) none :: tr' = pre ++ Step.origin req.method req.header none ans :: post ∧
+        pre.all Step.isRead = true ∧ contacted post = false ∧
+        (match fixAns cfg ans with
+         | .err _ => r = .err
+         | .resp rr _ _ => ∃ x, r = .resp x ∧ x.status = rr.status ∧ x.body = rr.body) := by
+  refine ⟨inval_leaves_nothing cfg rq respH key res0 s trI rI hI (reachable_res_inv cfg key s hs).1, ?_⟩
+  intro t0 req tr' r hu h
+  apply C10.store_fault_means_origin cfg t0 req _ r h hu
+  -- no entry is read in an exchange whose index look-up found nothing
+  intro id e0 hm
+  cases roundTrip_paths cfg t0 req _ r h with
+  | bypass hu' _ => rw [hu] at hu'; cases hu'
+  | hit refs sorted i e0' tr2 _ _ heq _ => cases heq
+  | miss pre tr1 refs ri _ hpre heq hrun =>
+    rw [heq] at hm
+    rcases List.mem_append.mp hm with hm | hm
+    · have := List.all_eq_true.mp hpre _ hm
+      simp [Step.isRead] at this
+    · rcases miss_first_step _ _ _ _ _ _ _ _ hrun with h0 | ⟨m, hd, dl, a, tr2, h0⟩
+      · rw [h0] at hm; cases hm
+      · -- after the origin call of a miss only writes follow
+        have hw := miss_writes _ _ _ _ _ _ _ _ hrun
+        rcases hw with h1 | ⟨ans, post, h1, hwa⟩
+        · rw [h1] at hm; cases hm
+        · rw [h1] at hm
+          rcases List.mem_cons.mp hm with e | e
+          · cases e
+          · generalize fixAns cfg ans = fa at hwa
+            cases hwa with
+            | none _ => cases e
+            | store rr t1 b post' _ _ hsw =>
+              cases hsw with
+              | none _ => cases e
+              | entryFailed _ _ _ _ => simp at e
+              | stored _ _ _ _ _ _ _ => simp at e
+              | storedDropping _ _ _ _ _ _ _ _ => simp at e
+            | freshen _ _ _ _ _ _ _ hst => cases hst
+            | restore _ _ _ _ _ _ _ hst => cases hst
 
 end Httpcache.C07
